@@ -33,7 +33,7 @@ import itertools
 from fractions import Fraction
 
 from .. import sym, uflmodel, uflsem
-from ..lift import Interp, LiftRaise, Obj, Unsupported
+from ..lift import Interp, LiftRaise, NumTypecodes, Obj, Unsupported
 from ..model import AnalysisError, norm
 from ..report import Report
 from ..uflmodel import node, terminal
@@ -193,7 +193,7 @@ def reduce_pairs(cell: Cell, verts, which):
 
 
 class Lowering:
-    def __init__(self, ctx, cell: Cell):
+    def __init__(self, ctx, cell: Cell, preserve_types=()):
         self.ctx = ctx
         self.cell = cell
         prog = ctx.prog
@@ -273,15 +273,14 @@ class Lowering:
 
         ip.overrides["reduce"] = _reduce
         self.selfobj = Obj("GeometryLoweringApplier", __class__=self.cls)
-        # the applier's own __init__ from source (whatever working state it sets up), with an empty preserve set;
-        # the per-typecode table is then replaced by a name-indexed one
+        # the applier's own __init__ from source (whatever working state it sets up, under whatever names), with the
+        # given preserve_types; a type's typecode is its name and `[x] * Expr._ufl_num_typecodes_` a table over names
         ip.skip_functions.add("MultiFunction.__init__")
         ip.class_attrs = dict(getattr(ip, "class_attrs", None) or {})
-        ip.class_attrs[("ufl.core.expr", "Expr", "_ufl_num_typecodes_")] = len(ctx.tm.types)
+        ip.class_attrs[("ufl.core.expr", "Expr", "_ufl_num_typecodes_")] = NumTypecodes(len(ctx.tm.types))
         init = prog.lookup(self.cls, "__init__")
         if init is not None and init.cls is self.cls:
-            ip.call_function(init, [], {}, self_obj=self.selfobj)
-        self.selfobj.attrs["_preserve_types"] = Obj("table", __getitem__=lambda k: False)
+            ip.call_function(init, [tuple(preserve_types)], {}, self_obj=self.selfobj)
         prev = ip.isinstance_hook
 
     def placeholder(self, name):
@@ -604,8 +603,7 @@ def run(ctx) -> Report:
             rep.ok("C07-guard/affine", L.tab[tname].func, f"{tname} for tdim < 3 raises")
     # preserved types are returned unchanged
     cell = Cell("triangle", 2)
-    L = Lowering(ctx, cell)
-    L.selfobj.attrs["_preserve_types"] = Obj("table", __getitem__=lambda k: True)
+    L = Lowering(ctx, cell, preserve_types=[t.cls for t in ctx.tm.concrete() if t.cls.is_subclass_of("GeometricQuantity")])
     n_pres = 0
     for t in ctx.tm.concrete():
         if not t.cls.is_subclass_of("GeometricQuantity"):
